@@ -274,6 +274,18 @@ func (ce *cenv) feasible(pth dpath) bool {
 // callLocal evaluates a call of a package-local function on concrete arguments (constants, or constant tables).
 func (ce *cenv) callLocal(fd *ast.FuncDecl, call *ast.CallExpr, local map[types.Object]ast.Expr) ([]constant.Value, bool) {
 	sub := ce.child()
+	// a method: the receiver stands for the value the method is called on
+	if fd.Recv != nil && len(fd.Recv.List) == 1 && len(fd.Recv.List[0].Names) == 1 {
+		se, ok := ast.Unparen(call.Fun).(*ast.SelectorExpr)
+		if !ok {
+			return nil, false
+		}
+		if v, ok := ce.eval(se.X, local); ok {
+			sub.byObj[ce.info.Defs[fd.Recv.List[0].Names[0]]] = v
+		} else {
+			return nil, false
+		}
+	}
 	i := 0
 	for _, prm := range fd.Type.Params.List {
 		for _, nm := range prm.Names {
